@@ -68,6 +68,16 @@ func init() {
 		in.Assume(smt.Eq(smt.Eq(BLen(s), smt.BV(0, 64)), smt.Eq(s, smt.StrLit(""))))
 		return sl
 	}
+	intrinsics["vB64Str"] = func(in *Interp, fn *ssa.Function, a []Value) Value {
+		name := in.fresh(constStr(in, a[0], "vB64Str name"))
+		s := smt.NewVar(symName(name), smt.KStr, 0)
+		ir := in.addInput(name, "b64str", s)
+		ir.Extra["empty"] = smt.Eq(s, smt.StrLit(""))
+		ir.Extra["ok"] = B64OK("std", s)
+		ir.Extra["dec"] = B64D("std", s)
+		ir.Extra["declen"] = BLen(B64D("std", s))
+		return s
+	}
 	intrinsics["vB64"] = func(in *Interp, fn *ssa.Function, a []Value) Value {
 		return in.b64Encode("std", in.stringOfBytes(a[0].(*SliceV)))
 	}
